@@ -486,7 +486,8 @@ def gen_C08(tier, seed):
                              (255, 0, 0, 0), (0, 255, 0, 0), (0, 0, 255, 0), (0, 0, 0, 2**32 - 1), (12, 30, 60, 0)]:
             out.append(f"is_valid {y} 6 30 {h} {mi} {s} {ns}")
             out.append(f"from_greg {y} 6 30 {h} {mi} {s} {ns} 0")
-    for y in (-30000, -12345, -1, 0, 10000, 12345, 30000, 2**31 - 1, -2**31, 5883000, -5879000):
+    # years beyond +/-3 000 000 of 1900 take the model's slow loop path (minutes each): thorough tier only
+    for y in (-30000, -12345, -1, 0, 10000, 12345, 30000, 2**31 - 1, -2**31, 2999000, -2997000) + ((3001901, -2998102) if tier == "thorough" else ()):
         for (m, d) in ((1, 1), (2, 28), (3, 1), (12, 31), (6, 15)):
             out.append(f"from_greg {y} {m} {d} 0 0 0 0 0")
     n = budget(tier, 8000, 300000)
